@@ -175,6 +175,17 @@ CLAIMED = {
              'save/reload.',
         note='The solver decides the coordinate/coincidence part (as in C01); the rest is structural comparison on each explored path. One recorded known finding (Document.add_path element is un-namespaced). XML and file-system layers are executed, not modelled.',
         design='3/C18'),
+    'C04': dict(
+        text='The real Arc constructor/_parameterize/point/derivative/reversed/cropped/as_*_curves run on arcs given THROUGH THEIR ELLIPSE: '
+             'centre symbolic, radii from {2x1, negative-signed}, rotation from 4 (thorough 9) angles with rational cos/sin (0, 90, 180, '
+             '36.87.. degrees, ...), start direction a rational unit vector, END DIRECTION SYMBOLIC (rational parametrisation of the circle), '
+             'all four flag combinations with the orientation chosen so that the flags select this ellipse; and the too-small-radii case '
+             '(scale factor k > 1 symbolic).  z3 decides per control path: radii = |r|*max(1,sqrt(Lambda)), centre, point(0)=start, '
+             'point(1)=end, point(t) on the ellipse, theta/delta as points of the unit circle, delta>0 iff sweep, |delta|>=180 iff large_arc, '
+             'theta range, Bezier approximations chained from start to end.  derivative(t,n), n=1..8, against the formal derivative on an '
+             'arc with free theta/delta/centre; reversed(): same ellipse, swapped angles, flags; cropped(): flag rule and end points.',
+        note='Angle domain: angles are (degree value, cos, sin) triples with the acos range axioms; cos/sin of t*delta is a free unit pair (exact at t=0,1). Comparisons are posed on sympy-cancelled rational functions and perfect-square radicands are resolved by sympy and CONFIRMED by z3 (r*r == radicand) before use. Bound: finite sets of rotations / radii / start directions; irrational cos/sin rotations outside.',
+        design='3/C04'),
 }
 
 NOT_YET = 'check not built yet in this round (see DESIGN.md section 3 for the plan)'
